@@ -36,6 +36,25 @@ Theorem C16_integer_shift_holds_ends : forall (h : Z) (data : list R) (m : Z) (n
 Proof. exact timeshift_const_integer_shift. Qed.
 Theorem C16_zero_shift_is_identity : forall (h : Z) (data : list R), (1 <= h)%Z -> timeshift_const RA data 0%R h = data.
 Proof. exact timeshift_const_zero_is_identity. Qed.
+(* the time-varying path (clip, zero padding, sliding window) agrees with the constant path wherever the stencil is interior *)
+Theorem C16_paths_agree_interior : forall (h : Z) (data shifts : list R) (n : nat),
+  (1 <= h)%Z -> (n < length data)%nat ->
+  let s := nth n shifts 0%R in
+  (0 <= Z.of_nat n + Zfloor s - (h - 1))%Z -> (Z.of_nat n + Zfloor s + h <= Z.of_nat (length data) - 1)%Z ->
+  nth n (timeshift_var RA data shifts h) 0%R = nth n (timeshift_const RA data s h) 0%R.
+Proof. exact timeshift_paths_agree_interior. Qed.
+Theorem C16_variable_shift_reproduces_polynomials : forall (h : Z) (q : rpoly) (data shifts : list R) (n : nat),
+  (1 <= h <= 56)%Z -> (length q <= Z.to_nat (2 * h))%nat ->
+  (forall i, (i < length data)%nat -> nth i data 0%R = reval q (IZR (Z.of_nat i))) ->
+  (n < length data)%nat ->
+  let s := nth n shifts 0%R in
+  (0 <= Z.of_nat n + Zfloor s - (h - 1))%Z -> (Z.of_nat n + Zfloor s + h <= Z.of_nat (length data) - 1)%Z ->
+  nth n (timeshift_var RA data shifts h) 0%R = reval q (IZR (Z.of_nat n) + s)%R.
+Proof. exact timeshift_var_reproduces_polynomials. Qed.
+Theorem C16_shift_beyond_start_holds_first_value : forall (h : Z) (data : list R) (s : R) (n : nat),
+  (1 <= h <= 56)%Z -> (n < length data)%nat -> (Z.of_nat n + Zfloor s + h <= 0)%Z ->
+  nth n (timeshift_const RA data s h) 0%R = nth 0 data 0%R.
+Proof. exact timeshift_const_beyond_start. Qed.
 (* interpolation theory for any distinct real nodes (no bound on their number) *)
 Theorem C16_lagrange_reproduces : forall (xs : list R), NoDup xs -> forall (q : rpoly) (x : R), (length q <= length xs)%nat ->
   fold_left (fun t k => (t + reval q (nth k xs 0%R) * lagrange_weight xs k x)%R) (seq 0 (length xs)) 0%R = reval q x.
